@@ -132,7 +132,7 @@ def run(tier, replay=None):
     else:
         tasks = gen_tasks(r, tier)
         sl.describe(b["h_hist"], [t[1] for t in tasks], core)
-        lines = [task_line("t%d" % i, t) for i, t in enumerate(tasks)]
+        lines = [task_line("t%d" % i, t) for i, t in enumerate(tasks)] + c10.corpus_lines("C13")
         kinds = {"t%d" % i: t[0] for i, t in enumerate(tasks)}
     env = {"ASAN_OPTIONS": "detect_leaks=0:abort_on_error=0:exitcode=99", "VF_SCRATCH": os.path.join(core.OUT, "C13")}
     impl, rc, err = core.run_parallel([b["h_entry"]], lines, env=env)
